@@ -33,7 +33,9 @@ def mantissas(tier, rnd):
             "9999999999999999999999999", "1E+3", "1.50", "7E-7",
             # float() corner cases: integers just above 2**53, 16-17 digit mantissas, ties between adjacent doubles
             "9007199254740993", "-9007199254740995", "9.999999999999999", "-9.999999999999999", "1.0000000000000002",
-            "4503599627370497.5", "0.1000000000000000055511151231257827", "123456789012345678"]
+            "4503599627370497.5", "0.1000000000000000055511151231257827", "123456789012345678",
+            # signed zeros and zeros with exponents: they are all the value 0
+            "-0", "-0.0", "0E+3", "-0E-7", "0.000"]
     n = 60 if tier == "thorough" else 8
     for _ in range(n):
         digits = rnd.randint(1, 25)
@@ -61,6 +63,9 @@ def cases(tier, seed):
             picks.append(("1", "1.0000000000000000000001"))
             picks.append(("-2.00000000000000000000004", "-2"))
             picks.append(("1", "1.00000000000000000002"))
+            picks.append(("-0", "0"))
+            picks.append(("0", "-0.0"))
+            picks.append(("-0E+2", "1E-30"))
             for a, b in picks:
                 yield (a, pa.name, b, pb.name)
 
